@@ -484,7 +484,7 @@ class TheJoker:
 
             pm.Deterministic("logp", model.logp())
 
-            dist = pm.Normal.dist(model.model_rv, data.rv_err.value)
+            dist = pm.Normal.dist(model.model_rv, err)
             lnlike = pm.Deterministic(
                 "ln_likelihood", pm.logp(dist, data.rv.value).sum(axis=-1)
             )
